@@ -117,6 +117,26 @@ def classify(case):
     node = doc.node_at(d["iso_pos"])
     start, end = d["iso_pos"] + 1, d["iso_pos"] + 1 + node.content.size
     st = d["steps"][0]["step"]
+    # known upstream semantics: replace_range_with at a cursor position (from == to) at the start/end of its
+    # parent moves the insertion to insert_point(...), which climbs out of ancestors without looking at
+    # `isolating`; the node is inserted before/after the isolating node, which itself is untouched
+    if d.get("op") == "replace_range_with" and d["from"] == d["to"] and len(d["steps"]) == 1 \
+            and st.get("type") == "ReplaceStep" and st["from_"] == st["to"] and st["slice"]["content"]:
+        from prosemirror.transform import structure as _structure
+        try:
+            ty = sc.nodes[st["slice"]["content"][0]["type"]]
+            point = _structure.insert_point(doc, d["from"], ty)
+        except Exception:  # noqa: BLE001
+            point = None
+        if point is not None and point == st["from_"] and (point < start or point > end):
+            fin = Node.from_json(sc, d["final"])
+            shift = fin.content.size - doc.content.size if point < start else 0
+            try:
+                kept = fin.node_at(d["iso_pos"] + shift)
+            except ValueError:
+                kept = None
+            if kept is not None and kept.eq(node):
+                return "C18-insert-point-leaves-isolating-node"
     if st.get("from_", start) < start or st.get("to", end) > end:
         # and the isolating node itself must survive with its type and attributes at the same place
         fin = Node.from_json(sc, d["final"])
